@@ -28,6 +28,7 @@ Element identities among equal distances are never compared (ties are broken by 
 import collections
 import concurrent.futures
 import os
+import struct
 import zlib
 
 from lib import core
@@ -77,6 +78,33 @@ def realloc_prone(kv):
         return False
     deg, mx, leaf, cache = int(kv["deg"]), int(kv["max"]), int(kv["leaf"]), int(kv["cache"])
     return max(deg, mx) >= leaf + 1 and cache >= 2
+
+
+def gen_boundary_params(rng):
+    """the smallest parameters the constructor accepts without leaving defined behaviour (degree, minDegree >= 1):
+    degree 1 (chain trees: every split has one child), minDegree 1, maxDegree below degree, leaf size 0 (split as soon
+    as a leaf holds more than `degree_` elements; with rebalancing rebuildSize_ = 0, so every overflow rebuilds),
+    removal cache 0 / 1 (every removal rebuilds)."""
+    return {"deg": rng.choice([1, 1, 2, 3]), "min": rng.choice([1, 1, 2]), "max": rng.choice([1, 2, 3]),
+            "leaf": rng.choice([0, 0, 1, 2]), "cache": rng.choice([0, 1, 2, 5]), "rebal": rng.below(2), "seed": rng.below(1000)}
+
+
+def degenerate(kv):
+    """parameterisations outside ParamsOK (Props/C10.lean: gnat_ctor_establishes_inv): degree_ or minDegree_ is 0."""
+    return kv["kind"].startswith("gnat") and min(int(kv["deg"]), int(kv["min"])) == 0
+
+
+def gen_degenerate(rng, kind, metric, dname):
+    """constructor arguments with degree = 0 or minDegree = 0 (accepted silently): adds, then queries (F400)."""
+    prm = {"deg": rng.choice([0, 2, 3]), "min": 0, "max": rng.range(2, 4), "leaf": rng.range(1, 3), "cache": rng.below(3),
+           "rebal": 0, "seed": rng.below(1000)}
+    d = Dist(rng, metric, dname)
+    lines = [header(kind, metric, prm)]
+    pts = [d.point() for _ in range(rng.range(8, 30))]
+    lines += ["add " + ps(p) for p in pts]
+    q = d.point()
+    lines += ["nk %s %d" % (ps(q), len(pts) + 1), "nr %s %d" % (ps(q), HUGE), "list"]
+    return lines
 
 
 def gen_params(rng, safe):
@@ -176,7 +204,7 @@ def gen_script(rng, kind, metric, prm, dname, nops, maxn=60):
             elif r < 95:
                 c = rng.below(6)
                 if c == 0:
-                    rad = 0
+                    rad = rng.choice([0, 0, -1])             # radius 0 and a negative radius (empty answer)
                 elif c == 1:
                     rad = HUGE
                 elif c <= 3 and held:
@@ -282,6 +310,130 @@ def gen_empty_states(rng, kind, metric, prm, dname):
         lines += rng.choice([["nk %s 3" % ps(q), big], [big, "nk %s 2" % ps(q)], ["nst " + ps(q), big]])
         lines += ["size", "list"]
     return lines
+
+
+# ---------------------------------------------------------------------------------- GreedyKCenters::kcenters, directly
+def gen_kc(rng, metric, dname, nops=10):
+    """`kc <k> <rows> <cols> <n> <pts>`: kcenters called directly (not through split) with every relation between k, n
+    and the caller's matrix: exact n x k, 0 x 0, too few rows, too few columns (both force the resize), larger than
+    needed (no resize: the surplus cells must stay untouched), k = 1, k = n, k > n, n = 1, duplicate-heavy data (the
+    `maxDist < eps` cut-off returns fewer than k centres)."""
+    d = Dist(rng, metric, dname)
+    lines = ["nn kind=linear metric=%s seed=%d" % (metric, rng.below(1000))]
+    for _ in range(nops):
+        n = rng.choice([1, 2, 3, 5, 8, 13, 20])
+        k = max(1, rng.choice([1, 2, n - 1, n, n + 1, n + 3, rng.range(1, 8)]))
+        shape = rng.choice(["exact", "zero", "rows-short", "cols-short", "larger", "rows-larger", "cols-larger", "one-short-each"])
+        rows, cols = {"exact": (n, k), "zero": (0, 0), "rows-short": (n - 1, k), "cols-short": (n, k - 1),
+                      "larger": (n + rng.range(1, 4), k + rng.range(1, 3)), "rows-larger": (2 * n + 1, k),
+                      "cols-larger": (n, k + 2), "one-short-each": (n - 1, k - 1)}[shape]
+        pts = [d.point() for _ in range(n)]
+        lines.append("kc %d %d %d %d %s" % (k, max(rows, 0), max(cols, 0), n, " ".join(ps(p) for p in pts)))
+    return lines
+
+
+def kc_oracle(metric, line, o):
+    """the contract of kcenters on the real answer (None = ok): valid distinct centres, first = uniformInt of the recorded
+    draw, each further centre a farthest point from the earlier ones (at distance >= 1 = not < epsilon for an integer
+    metric), fewer than k only if every point coincides with a centre, dists(j,i) = distance(data[j], data[centers[i]]),
+    the resize rule, and nothing else written."""
+    dim, mfun = METRICS[metric]
+    t = line.split()
+    k, rows, cols, n = map(int, t[1:5])
+    pts = parse_pts(t[5:], dim)
+    kv = dict(x.split("=", 1) for x in o.split())
+    if kv["u"].startswith("?"):
+        return "kcenters drew %s random numbers, expected exactly one (the first centre)" % kv["u"][1:]
+    u = struct.unpack("<d", struct.pack("<Q", int(kv["u"])))[0]
+    cs = [int(x) for x in kv["c"].split(",")] if kv["c"] else []
+    if not (1 <= len(cs) <= k) or any(c < 0 or c >= n for c in cs) or len(set(cs)) != len(cs):
+        return "centres %s are not 1..k distinct valid indices (k=%d, n=%d)" % (cs, k, n)
+    import math
+    first = min(int(math.floor(n * u)), n - 1)
+    if cs[0] != first:
+        return "first centre %d, uniformInt(0,n-1) of the recorded draw gives %d" % (cs[0], first)
+    md = [None] * n
+    for i, c in enumerate(cs):
+        if i > 0:
+            mx = max(md)
+            if md[c] != mx or mx < 1:
+                return "centre %d (index %d) is at distance %s from the earlier centres, the farthest point is at %s" % (i, c, md[c], mx)
+        for j in range(n):
+            dj = mfun(pts[j], pts[c])
+            md[j] = dj if md[j] is None else min(md[j], dj)
+    if len(cs) < k and max(md) >= 1:
+        return "only %d of %d centres although a point at distance %d from all centres is available" % (len(cs), k, max(md))
+    grow = rows < n or cols < k
+    want_dims = (max(2 * rows + 1, n), k) if grow else (rows, cols)
+    if kv["dims"] != "%dx%d" % want_dims or kv["resized"] != ("1" if grow else "0"):
+        return "matrix is %s (resized=%s) after the call, the documented rule gives %dx%d" % (kv["dims"], kv["resized"], want_dims[0], want_dims[1])
+    want_m = ";".join(",".join(str(mfun(pts[j], pts[c])) for c in cs) for j in range(n))
+    if kv["m"] != want_m:
+        return "dists(j,i) is not distance(data[j], data[centers[i]]): got %s, expected %s" % (kv["m"][:200], want_m[:200])
+    if not grow and kv["untouched"] != str(rows * cols - n * len(cs)):
+        return "%s cells of the %dx%d matrix kept their old value, expected %d (only columns < centers.size() of rows < n are written)" % (
+            kv["untouched"], rows, cols, rows * cols - n * len(cs))
+    return None
+
+
+def judge_kc(ck, hbin, script, lock):
+    if len(ck.violations) >= 3:
+        return True
+    metric = parse_header(script[0])["metric"]
+    out, rc, err = run_impl(ck, hbin, script)
+    bad = None
+    for i, ln in enumerate(script[1:]):
+        if i >= len(out):
+            bad = (i, "implementation stopped early (crash or sanitizer report): %s" % (err or "")[-200:], "crash")
+            break
+        try:
+            w = kc_oracle(metric, ln, out[i]) if out[i] != "bad-op" else "bad-op on a well-formed line"
+        except (ValueError, KeyError, IndexError) as e:
+            w = "unparsable harness output: %r" % (e,)
+        if w:
+            bad = (i, w, "kcenters")
+            break
+    with lock:
+        ck.traces_validated += 1
+        ck.case(tuple(script), True)
+        ck.count("scripts:kcenters-direct")
+        ck.count("kcenters-direct:calls", len(script) - 1)
+        for ln, o in zip(script[1:], out):
+            t = ln.split()
+            k, rows, cols, n = map(int, t[1:5])
+            nc = len(o.split(" c=")[1].split()[0].split(",")) if " c=" in o else 0
+            ck.count("kcenters-direct:%s" % ("resize" if rows < n or cols < k else "no-resize"))
+            ck.count("kcenters-direct:%s" % ("fewer-centres-than-k" if nc < k else "k-centres"))
+            if k >= n:
+                ck.count("kcenters-direct:k>=n")
+    if bad is not None:
+        i, what, cls = bad
+        small = [script[0], script[1 + i]]
+        rec = {"engine": ENGINE, "kind": "kcenters", "metric": metric, "class": cls, "what": what}
+        with lock:
+            new = ck.report(rec, script=small, expected=["spec: " + what], observed=out[i:i + 1], engine=ENGINE)
+            if new:
+                ck.log("GreedyKCenters::kcenters (direct call) violates its contract: %s [%s]" % (what, script[1 + i][:120]))
+        return not new
+    # the model of kcenters WITH its matrix (Model/NNKCenters.lean) on the same inputs and the recorded draw
+    drv = [script[0]]
+    for ln, o in zip(script[1:], out):
+        drv.append("kcm %s %s" % (o.split()[0][2:], ln[3:]))
+    model, rc2, err2 = ck.run_bin(ck.driver(DRIVER), drv)
+    if rc2 != 0:
+        raise RuntimeError("drv_nn failed: %s" % (err2 or "")[-500:])
+    for i, o in enumerate(out):
+        want = " ".join(o.split()[1:])
+        got = model[i] if i < len(model) else "<missing>"
+        if got != want:
+            with lock:
+                ck.disagreements += 1
+                ck.report({"engine": ENGINE, "what": "model/implementation disagreement (kcenters with its matrix)"},
+                          script=[script[0], script[1 + i]], expected=[got], observed=[want], found_input=False, engine=ENGINE,
+                          obligation="correspondence nn: kcentersM (Model/NNKCenters.lean) vs GreedyKCenters::kcenters on `%s`" % script[1 + i][:160])
+                ck.log("kcenters model/implementation disagreement on %r: model %r, implementation %r" % (script[1 + i][:120], got[:200], want[:200]))
+            return False
+    return True
 
 
 # ---------------------------------------------------------------------------------- dump parsing / GnatInv
@@ -784,6 +936,13 @@ def classify(script, out, res):
     kv = parse_header(script[0])
     step, what, cls = res["fail"]
     rec = {"engine": ENGINE, "kind": kv["kind"], "metric": kv["metric"], "what": what, "class": cls}
+    # F400: the constructor accepts degree = 0 / minDegree = 0; a node then has degree_ = 0 and the split of that node
+    # calls kcenters with k = 0 (write into an n x 0 matrix).  Recognised from observations only: the run died inside an
+    # add / addv, and a node with `deg=0` was dumped before (or the root is constructed with degree 0).
+    if degenerate(kv) and cls == "crash" and 0 <= step < len(script) - 1 and script[1 + step].split()[0] in ("add", "addv"):
+        if int(kv["deg"]) == 0 or any(" deg=0 " in o for o in out[:step]):
+            rec["class"] = "gnat-split-with-degree-zero"
+            return rec
     # a removal cache that survives clear(): the dump right after a `clear` still shows |removed_| > 0
     for i, ln in enumerate(script[1:]):
         if (step < 0 or i <= step) and ln.split()[0] == "clear" and i < len(out):
@@ -828,9 +987,13 @@ def judge(ck, hbin, script, tag, lock):
     out, res = evaluate(ck, hbin, script, reuse)
     kv = parse_header(script[0])
     corr = None
-    if res["fail"] is None:
+    degen = degenerate(kv)      # outside ParamsOK: the model (and its theorems) say nothing; the oracle alone judges
+    if degen:
+        with lock:
+            ck.count("gnat:degenerate-params-oracle-only")
+    if res["fail"] is None and not degen:
         corr = correspondence(ck, script, out)
-    if kv["kind"] == "gnat" and res["fail"] is None:
+    if kv["kind"] == "gnat" and res["fail"] is None and not degen:
         # the thread-safe variant and GNATNoThreadSafety on the identical history with the same RNG seed
         bad, same, steps = variants_agree(ck, hbin, script, out, reuse)
         with lock:
@@ -844,7 +1007,7 @@ def judge(ck, hbin, script, tag, lock):
                 if new:
                     ck.log("GNAT variants disagree at step %d: %r vs %r" % (bad[0], bad[1][:160], bad[2][:160]))
                 return not new
-    if kv["kind"].startswith("gnat") and res["fail"] is None and (tag != "random" and not tag.startswith("random") or zlib.crc32("\n".join(script).encode()) % 3 == 0):
+    if kv["kind"].startswith("gnat") and res["fail"] is None and not degen and (tag != "random" and not tag.startswith("random") or zlib.crc32("\n".join(script).encode()) % 3 == 0):
         bad, differs, answers = layout_independent(ck, hbin, script)
         with lock:
             ck.count("gnat-layout:histories-run-with-two-heap-layouts")
@@ -1063,7 +1226,11 @@ def run(ck):
     default_selection(ck)
     lock = threading.Lock()
     jobs = []
+    kc_corpus = []
     for name, script in corpus():
+        if any(ln.startswith("kc ") for ln in script[1:]):
+            kc_corpus.append(script)
+            continue
         jobs.append((script, "refill" if "refill" in name else "corpus"))     # refill scripts run with allocator reuse
     nper = 40 if ck.tier == "quick" else 400
     dnames = ["uniform", "dups", "lattice", "clusters"]
@@ -1081,6 +1248,26 @@ def run(ck):
             r = ck.rng.fork("empty-%s-%d" % (kind, j))
             prm = gen_params(r, safe=True) if kind.startswith("gnat") else None
             jobs.append((gen_empty_states(r, kind, metrics[j % len(metrics)], prm, dnames[(j // len(metrics)) % 4]), "empty-states"))
+    # generator class boundary parameters (degree 1, minDegree 1, leaf 0, cache 0/1), both GNAT variants
+    nbnd = 24 if ck.tier == "quick" else 240
+    for kind in ("gnat", "gnatnts"):
+        for j in range(nbnd):
+            r = ck.rng.fork("boundary-%s-%d" % (kind, j))
+            prm = gen_boundary_params(r)
+            for key in ("deg", "min", "max", "leaf", "cache"):
+                ck.count("boundary-params:%s=%d" % (key, prm[key]))
+            jobs.append((gen_script(r, kind, metrics[j % len(metrics)], prm, dnames[(j // len(metrics)) % 4], r.choice([25, 60]), maxn=30),
+                         "random-boundary-params"))
+    # degenerate constructor arguments (F400): oracle only
+    for kind in ("gnat", "gnatnts"):
+        for j in range(1 if ck.tier == "quick" else 6):
+            r = ck.rng.fork("degenerate-%s-%d" % (kind, j))
+            jobs.append((gen_degenerate(r, kind, ["abs1", "l1"][j % 2], dnames[j % 4]), "degenerate-params"))
+    # GreedyKCenters::kcenters called directly, with its matrix
+    kcjobs = list(kc_corpus)
+    for j in range(16 if ck.tier == "quick" else 200):
+        r = ck.rng.fork("kc-%d" % j)
+        kcjobs.append(gen_kc(r, metrics[j % len(metrics)], dnames[(j // len(metrics)) % 4]))
     idx = 0
     for kind in KINDS:
         reps = nper * (3 if kind.startswith("gnat") else 1)
@@ -1092,8 +1279,9 @@ def run(ck):
             prm = gen_params(r, safe=(j % 3 != 2)) if kind.startswith("gnat") else None
             nops = r.choice([25, 60, 120])
             jobs.append((gen_script(r, kind, metric, prm, dname, nops), "random-" + dname))
-    with concurrent.futures.ThreadPoolExecutor(max_workers=8) as ex:
+    with concurrent.futures.ThreadPoolExecutor(max_workers=int(os.environ.get("VERIF_WORKERS", "8"))) as ex:
         futs = [ex.submit(judge, ck, hbin, s, tag, lock) for s, tag in jobs]
+        futs += [ex.submit(judge_kc, ck, hbin, s, lock) for s in kcjobs]
         bad = sum(0 if f.result() else 1 for f in futs)
     ck.extra_cov["scripts_with_findings_or_alarms"] = bad
     return 0
@@ -1117,6 +1305,26 @@ def replay(ck, data):
     hbin = build(ck)
     ck.lean_build([DRIVER])
     script = data["script"]
+    if any(ln.startswith("kc ") for ln in script[1:]):
+        metric = parse_header(script[0])["metric"]
+        out, rc, err = run_impl(ck, hbin, script)
+        drv = [script[0]] + ["kcm %s %s" % (o.split()[0][2:], ln[3:]) for ln, o in zip(script[1:], out)]
+        model, _rc2, _e2 = ck.run_bin(ck.driver(DRIVER), drv)
+        rcode = 0
+        for i, ln in enumerate(script[1:]):
+            o = out[i] if i < len(out) else "<missing: %s>" % (err or "")[-200:]
+            print("%-40s impl:  %s" % (ln[:40], o[:300]))
+            print("%-40s model: %s" % ("", (model[i] if model and i < len(model) else "<missing>")[:300]))
+            w = kc_oracle(metric, ln, o) if i < len(out) and o != "bad-op" else "no answer"
+            if w:
+                print("PROPERTY (kcenters contract) FAILS: " + w)
+                rcode = 1
+            elif model and i < len(model) and model[i] != " ".join(o.split()[1:]):
+                print("model and implementation disagree")
+                rcode = 1
+        if rcode == 0:
+            print("no failure on the current tree")
+        return rcode
     reuse = (data.get("record") or {}).get("alloc") == "reuse"
     if reuse:
         print("(allocator in reuse mode: ASan quarantine off, see REUSE_ENV)")
@@ -1130,7 +1338,7 @@ def replay(ck, data):
     if res["inv"]:
         print("GnatInv fails on the dump after op %d: %s" % (res["inv"][0], res["inv"][1]))
         rc = 1
-    if rc == 0:
+    if rc == 0 and not degenerate(parse_header(script[0])):
         corr = correspondence(ck, script, out)
         if corr:
             print("model and implementation disagree at op %d: %s (model %r, implementation %r)" % corr)
